@@ -917,7 +917,68 @@ struct AmpOwner {
 };
 
 // ------------------------------------------------------------------ case mapping
-constexpr unsigned kOwners = 16;
+// ------------------------------------------------------------------ variant / optional assigned from a PART of their own active value
+// `v = get<1>(v).key`: the argument is not an alternative itself but converts to (and is assignable to) the active one, and it lives inside
+// the object being assigned to.  Assign-through keeps it alive; destroy-then-construct reads a destroyed object.
+struct Rec {
+    TCM key;
+    Rec(TCM const& k) : key(k) { } // NOLINT
+    auto operator=(TCM const& k) -> Rec&
+    {
+        key = k;
+        return *this;
+    }
+};
+struct PartOwner {
+    char const* subj = "variant<int,Rec>/optional<Rec> (Rec holds a tracked key)";
+    void step(vf::Chooser& ch)
+    {
+        unsigned w = ch.pick(4);
+        int v      = (int)ch.pick(3);
+        switch (w) {
+        case 0: {
+            vf::crumb(subj, "variant::operator=(U&&) from a member of the active alternative", "holds-Rec", "v=%d", v);
+            etl::variant<int, Rec> x(etl::in_place_index<1>, TCM(v));
+            x = etl::get_if<1>(&x)->key;
+            vf::cover("variant::operator=(member of own alternative)", vf::mix(1, v), true);
+            if (vf::eq_int("index", x.index(), 1)) { vf::eq_int("key", val(etl::get_if<1>(&x)->key), v); }
+            live_in(x, 1);
+            break;
+        }
+        case 1: {
+            vf::crumb(subj, "variant::operator=(U&&) from an outside object", "holds-Rec", "v=%d", v);
+            etl::variant<int, Rec> x(etl::in_place_index<1>, TCM(v));
+            TCM k(v + 1);
+            x = k;
+            vf::cover("variant::operator=(outside object)", vf::mix(2, v), true);
+            if (vf::eq_int("index", x.index(), 1)) { vf::eq_int("key", val(etl::get_if<1>(&x)->key), v + 1); }
+            vf::eq_int("source-unchanged", val(k), v + 1);
+            break;
+        }
+        case 2: {
+            vf::crumb(subj, "optional::operator=(U&&) from a member of the held value", "engaged", "v=%d", v);
+            etl::optional<Rec> o(etl::in_place, TCM(v));
+            o = o->key;
+            vf::cover("optional::operator=(member of own value)", vf::mix(3, v), true);
+            if (vf::eq_bool("has_value", o.has_value(), true)) { vf::eq_int("key", val(o->key), v); }
+            live_in(o, 1);
+            break;
+        }
+        default: {
+            vf::crumb(subj, "variant::emplace<I>(member of the active alternative) is NOT issued", "-", "-");
+            // (std::variant::emplace destroys first by specification: passing a reference into the old value is the caller's error)
+            etl::variant<int, Rec> x(etl::in_place_index<0>, v);
+            TCM k(v);
+            x = k; // int -> Rec through the converting assignment
+            vf::cover("variant::operator=(U&&) switching alternative", vf::mix(4, v), true);
+            if (vf::eq_int("index", x.index(), 1)) { vf::eq_int("key", val(etl::get_if<1>(&x)->key), v); }
+            break;
+        }
+        }
+    }
+};
+
+constexpr unsigned kOwners = 17;
 template <typename Owner>
 void drive(Owner& o, vf::Chooser& ch, unsigned steps)
 {
@@ -941,7 +1002,8 @@ void run_owner(unsigned id, vf::Chooser& ch, unsigned steps)
     case 12: { AmpOwner o; drive(o, ch, 1); break; }
     case 13: { OptOwner<TTA> o("trivially-assignable"); drive(o, ch, steps); break; }
     case 14: { VarOwner<TTA, TCM2> o("trivially-assignable,tcm2,int"); drive(o, ch, steps); break; }
-    default: { VarOwner<TCM, TTA> o("tcm,trivially-assignable,int"); drive(o, ch, steps); break; }
+    case 15: { VarOwner<TCM, TTA> o("tcm,trivially-assignable,int"); drive(o, ch, steps); break; }
+    default: { PartOwner o; drive(o, ch, steps > 2 ? 2 : steps); break; }
     }
 }
 
